@@ -45,6 +45,7 @@ type raceIn struct {
 	g      int
 	d      dmodel.Dialect
 	models []*dmodel.Model // own clones
+	feat   *dmodel.Model   // own clone of the dialect's feature model (common warm-up)
 	inputs []*Input        // own clones
 	docs   []string        // HCL sources
 	plans  []*migrate.Plan // own plans (planned sequentially before the start)
@@ -220,12 +221,23 @@ func columnTypes(ms []*dmodel.Model) (types []schema.Type, raws []string) {
 func raceInputs(seed uint64, G int) []*raceIn {
 	out := make([]*raceIn, G)
 	dirs := DirInputs(seed, 20)
+	// per dialect once (the goroutines get clones)
+	type perDialect struct {
+		pool      []*dmodel.Model
+		half, aux *dmodel.Model
+		feat      *dmodel.Model
+	}
+	pd := map[dmodel.Dialect]*perDialect{}
+	for _, d := range dmodel.Dialects {
+		x := &perDialect{pool: hclOK(dmodel.Pool(d)), feat: featModel(d)}
+		_, x.half, x.aux = bigModels(seed, d)
+		pd[d] = x
+	}
 	for g := 0; g < G; g++ {
 		d := dmodel.Dialects[g%len(dmodel.Dialects)]
 		r := rand.New(rand.NewPCG(seed, 0xACE<<8|uint64(g)))
-		in := &raceIn{g: g, d: d}
-		pool := hclOK(dmodel.Pool(d))
-		_, half, aux := bigModels(seed, d)
+		in := &raceIn{g: g, d: d, feat: pd[d].feat.Clone()}
+		pool, half, aux := pd[d].pool, pd[d].half, pd[d].aux
 		// own clones: three pool models + the half union; create, edit and realm inputs
 		for k := 0; k < 3; k++ {
 			in.models = append(in.models, uniq(pool[r.IntN(len(pool))].Clone()))
@@ -272,6 +284,56 @@ func (in *raceIn) prepare() {
 	in.types, in.specs = columnTypes(in.models)
 }
 
+// warmSteps: the common warm-up. Every goroutine of a dialect works on its OWN clone of the SAME model
+// (the union of the hand written pool models: every feature once), step by step behind the spin
+// barrier: the goroutines do identical work, so whatever Atlas initialises lazily on first use is
+// reached by all of them at practically the same instant. All goroutines of a dialect must produce
+// the same bytes as the sequential run afterwards.
+const warmSteps = 4
+
+var warmNames = [warmSteps]string{"create", "marshal", "eval", "drop"}
+
+func featModel(d dmodel.Dialect) *dmodel.Model {
+	var parts []*dmodel.Model
+	var nums []int
+	for i, m := range hclOK(dmodel.Pool(d)) {
+		if !strings.Contains(m.Name, "~") {
+			parts = append(parts, m)
+			nums = append(nums, i)
+		}
+	}
+	return union(d, "features", schemaOf(d), "", parts, nums)
+}
+
+func (in *raceIn) warm(step int) []byte {
+	a := apis[in.d]
+	switch step {
+	case 0, 3:
+		x := &Input{Dialect: in.d, To: in.feat}
+		if step == 3 {
+			x = &Input{Dialect: in.d, From: in.feat}
+		}
+		ch, p, err := diffPlan(x)
+		if err != nil {
+			return []byte("error: " + err.Error() + "\n" + describe(ch))
+		}
+		_, full := planText(p)
+		return []byte(full)
+	case 1:
+		b, err := a.marshal(dmodel.Build(in.feat))
+		if err != nil {
+			return []byte("error: " + err.Error())
+		}
+		return b
+	default:
+		r, err := a.evalDoc(dmodel.HCL(in.feat))
+		if err != nil {
+			return []byte("error: " + err.Error())
+		}
+		return []byte(strings.Join(dumpRealm(r), "\n"))
+	}
+}
+
 // opKey is the class-level key part of an operation: directory operations do not depend on the dialect.
 func opKey(k int, d dmodel.Dialect) string {
 	if opNames[k] == "hash" || opNames[k] == "memdir" {
@@ -285,7 +347,7 @@ func opKey(k int, d dmodel.Dialect) string {
 // BEFORE the operations of the step.
 type spinBarrier struct {
 	n       int32
-	arrived [1 + nOps]atomic.Int32
+	arrived [1 + nOps + warmSteps]atomic.Int32
 }
 
 func (b *spinBarrier) wait(step int) {
@@ -313,6 +375,9 @@ func runRace(c *rt.Ctx) {
 	c.Workers = G
 	rounds := c.Pick(48, 480)
 	child := os.Getenv("VERIF_C20RACE_CHILD") != ""
+	// a "detect" child only gives the race detector one more cold start: warm-up + phase A, no
+	// phase B, no baselines (its outputs are not compared)
+	detectOnly := os.Getenv("VERIF_C20RACE_CHILD") == "detect"
 	if child {
 		rounds = 16
 	}
@@ -355,6 +420,10 @@ func runRace(c *rt.Ctx) {
 		// microseconds. Between two barriers the goroutines share NO monitor state (no atomics, no
 		// locks: those would order the goroutines for the detector and hide races between accesses
 		// that are merely close in time).
+		for st := 0; st < warmSteps; st++ {
+			herd.wait(1 + nOps + st)
+			record('W', st, 0, st, in.warm(st))
+		}
 		herd.wait(0)
 		in.prepare()
 		seq := 0
@@ -369,7 +438,7 @@ func runRace(c *rt.Ctx) {
 		// ---- phase B: instrumented with the overlap matrix (atomics only).
 		readyB.Done()
 		<-startB
-		for round := 0; round < rounds; round++ {
+		for round := 0; round < rounds && !detectOnly; round++ {
 			k, v := r.IntN(nOps), r.IntN(variants)
 			for y := r.IntN(4); y > 0; y-- {
 				runtime.Gosched()
@@ -386,8 +455,30 @@ func runRace(c *rt.Ctx) {
 		}
 	})
 
+	if detectOnly {
+		c.Eval(rt.Digest("race-detect-only", G), true)
+		c.Finish("detector-only cold start (warm-up + phase A)", map[string]any{"race_detector": raceEnabled})
+		return
+	}
 	// ---- after all goroutines ended: sequential baselines on FRESH copies of the inputs ----
 	seqIns := raceInputs(c.Seed, G)
+	// the common warm-up: one sequential run per dialect; every goroutine of the dialect must match it
+	warmBase := map[dmodel.Dialect][warmSteps]string{}
+	warmBytes := map[dmodel.Dialect][warmSteps][]byte{}
+	for _, in := range seqIns {
+		if _, ok := warmBase[in.d]; ok {
+			continue
+		}
+		var ds [warmSteps]string
+		var bs [warmSteps][]byte
+		for st := 0; st < warmSteps; st++ {
+			bs[st] = in.warm(st)
+			ds[st] = sum(bs[st])
+			c.Eval(rt.Digest("race-warm-baseline", in.d, st, ds[st]), len(bs[st]) > 0)
+		}
+		warmBase[in.d], warmBytes[in.d] = ds, bs
+	}
+	warmOps := int64(0)
 	base := make([][nOps][variants]string, G)
 	baseBytes := func(g, k, v int) []byte { return seqIns[g].op(k, v) }
 	unstable := 0
@@ -395,15 +486,10 @@ func runRace(c *rt.Ctx) {
 		in.prepare()
 		for k := 0; k < nOps; k++ {
 			for v := 0; v < variants; v++ {
-				b1, b2 := in.op(k, v), in.op(k, v)
+				// one sequential run; an operation that is not even sequentially repeatable shows up as
+				// a mismatch below and is then classified by ten more sequential runs
+				b1 := in.op(k, v)
 				base[g][k][v] = sum(b1)
-				if sum(b2) != sum(b1) {
-					unstable++
-					base[g][k][v] = ""
-					c.Violation("race|sequential-baseline|"+opKey(k, in.d),
-						fmt.Sprintf("operation %s is not repeatable even sequentially (goroutine inputs %d, variant %d): %s", opNames[k], g, v, firstDiff(b1, b2)),
-						map[string]any{"leg": "race", "seed": c.Seed, "g": g, "op": opNames[k], "variant": v}, nil)
-				}
 				c.Eval(rt.Digest("race-baseline", g, k, v, base[g][k][v]), len(b1) > 0)
 			}
 		}
@@ -428,6 +514,18 @@ func runRace(c *rt.Ctx) {
 		in := seqIns[g]
 		bad := 0
 		for _, rec := range slots[g] {
+			if rec.phase == 'W' {
+				warmOps++
+				if want := warmBase[in.d][rec.k]; rec.digest != want {
+					bad++
+					c.Violation("race|warm-up-output-differs|"+warmNames[rec.k]+"|"+string(in.d),
+						fmt.Sprintf("common warm-up step %s (%s, goroutine %d): the output produced while all goroutines did the same step on their own copies of the same model differs from the sequential run: %s",
+							warmNames[rec.k], in.d, g, firstDiff(warmBytes[in.d][rec.k], rec.got)),
+						map[string]any{"leg": "race", "seed": c.Seed, "g": g, "op": "warm-" + warmNames[rec.k], "phase": "W"},
+						map[string]any{"sequential": clip(warmBytes[in.d][rec.k], 2000), "concurrent": clip(rec.got, 2000)})
+				}
+				continue
+			}
 			ph := 0
 			if rec.phase == 'B' {
 				ph = 1
@@ -469,16 +567,23 @@ func runRace(c *rt.Ctx) {
 		c.Count("race:ops-instrumented:"+opNames[k], opsDone[1][k])
 	}
 	c.Count("race:goroutines", int64(G))
+	c.Count("race:ops-common-warm-up", warmOps)
 	c.Count("race:overlapping-kind-pairs-observed", int64(pairs))
 	// ---- more cold starts: lazily initialised state is cold once per process, so the workload is
 	// repeated in fresh child processes (same binary, same GORACE settings: their detector reports
 	// land next to ours and are counted by ./check; their output mismatches are re-reported here).
-	children := 0
+	children, extraCold := 0, 0
 	if !child {
 		children = c.Pick(1, 9)
-		for i := 0; i < children; i++ {
-			nv, nr := runRaceChild(c, i)
-			c.Count("race:child-processes", 1)
+		detect := c.Pick(4, 10)
+		extraCold = detect
+		for i := 0; i < children+detect; i++ {
+			mode := "1"
+			if i >= children {
+				mode = "detect"
+			}
+			nv, nr := runRaceChild(c, i, mode)
+			c.Count("race:child-processes:"+map[string]string{"1": "full", "detect": "detector-only"}[mode], 1)
 			c.Count("race:child-process-detector-exit", int64(nr))
 			c.Count("race:child-process-output-violations", int64(nv))
 		}
@@ -499,12 +604,12 @@ func runRace(c *rt.Ctx) {
 		"monitor synchronisation at all (maximal power of the race detector, lazy initialisations are hit cold); phase B: %d rounds of seeded kinds with Gosched jitter "+
 		"and an atomic in-flight matrix (extra.overlap = operation-kind pairs observed in flight together). Every concurrent output must equal the digest of the same "+
 		"operation run sequentially afterwards on fresh copies of the inputs; with -race every detector report is a violation (counted by ./check from the GORACE log)", G, rounds),
-		map[string]any{"exhaustive": false, "overlap": overlap, "race_detector": raceEnabled, "unstable_baselines": unstable, "gomaxprocs": runtime.GOMAXPROCS(0), "cold_start_processes": 1 + children})
+		map[string]any{"exhaustive": false, "overlap": overlap, "race_detector": raceEnabled, "unstable_baselines": unstable, "gomaxprocs": runtime.GOMAXPROCS(0), "cold_start_processes": 1 + children + extraCold})
 }
 
 // runRaceChild re-executes this binary's c20race in a fresh process and re-reports its violations.
 // It returns the number of violation records and 1 if the child exited with the detector's exit code.
-func runRaceChild(c *rt.Ctx, i int) (nviol, detector int) {
+func runRaceChild(c *rt.Ctx, i int, mode string) (nviol, detector int) {
 	exe, err := os.Executable()
 	if err != nil {
 		c.Inconclusive("race-child-not-started")
@@ -514,7 +619,7 @@ func runRaceChild(c *rt.Ctx, i int) (nviol, detector int) {
 	os.MkdirAll(dir, 0o755)
 	out := filepath.Join(dir, "out.jsonl")
 	cmd := exec.Command(exe, "c20race", "--tier", c.Tier, "--seed", fmt.Sprint(c.Seed), "--scratch", dir, "--out", out)
-	cmd.Env = append(os.Environ(), "VERIF_C20RACE_CHILD=1", "VERIF_INFLIGHT_DIR=")
+	cmd.Env = append(os.Environ(), "VERIF_C20RACE_CHILD="+mode, "VERIF_INFLIGHT_DIR=")
 	err = cmd.Run()
 	if ee, ok := err.(*exec.ExitError); ok {
 		if ee.ExitCode() == 66 {
